@@ -273,7 +273,9 @@ class FileReader(FileBase):
             if nbytes == len(read_buffer_view) or self.eos():
                 # We have either filled the buffer or reached the end of the stream
                 break
-            self._seek2hdr(self.ifile_cur + 1)
+            if nbytes_read == 0:
+                # Current file is exhausted (a short read is not), move to the next
+                self._seek2hdr(self.ifile_cur + 1)
 
         if self.bitsinfo.unpack and unpack_buffer is not None:
             read_ar = np.frombuffer(read_buffer_view, dtype=np.uint8)
